@@ -15,6 +15,7 @@ ANext ==
   \/ \E h, msg, ctx, ctxlen, mode, mp, sig : Verify(h, msg, ctx, ctxlen, mode, mp, sig)
   \/ \E h, mp, sig : VerifyInternal(h, mp, sig)
   \/ \E fault, at : Dudect(fault, at)
+  \/ \E entry, healthy : OsRng(entry, healthy)
   \/ \E h, bytes : Serialise(h, bytes)
   \/ \E kind, set, bytes, accept, h : Deserialise(kind, set, bytes, accept, h)
   \/ \E hsk, hpk : Derive(hsk, hpk)
@@ -99,10 +100,12 @@ THEOREM LifeInductive == ASpec => []LifeInv
     BY <2>12, <2>7 DEF VerifyInternal
   <2>13. ASSUME NEW fault, NEW at, Dudect(fault, at) PROVE LifeInv'
     BY <2>13, <2>7 DEF Dudect
+  <2>os. ASSUME NEW entry, NEW healthy, OsRng(entry, healthy) PROVE LifeInv'
+    BY <2>os, <2>7 DEF OsRng
   <2>14. ASSUME NEW h, NEW bytes, Serialise(h, bytes) PROVE LifeInv'
     BY <2>14, <2>7 DEF Serialise
   <2> QED
-    BY <2>1, <2>2, <2>3, <2>4, <2>5, <2>6, <2>8, <2>9, <2>10, <2>11, <2>12, <2>13, <2>14 DEF ANext
+    BY <2>1, <2>2, <2>3, <2>4, <2>5, <2>6, <2>8, <2>9, <2>10, <2>11, <2>12, <2>13, <2>14, <2>os DEF ANext
 <1> QED
   BY <1>1, <1>2, PTL DEF ASpec
 
@@ -167,6 +170,8 @@ THEOREM InjInductive == ASpec => []InjInv
     BY <2>9, <2>5 DEF VerifyInternal
   <2>10. ASSUME NEW fault, NEW at, Dudect(fault, at) PROVE InjInv'
     BY <2>10, <2>5 DEF Dudect
+  <2>os. ASSUME NEW entry, NEW healthy, OsRng(entry, healthy) PROVE InjInv'
+    BY <2>os, <2>5 DEF OsRng
   <2>11. ASSUME NEW kind, NEW set, NEW bytes, NEW accept, NEW h, Deserialise(kind, set, bytes, accept, h) PROVE InjInv'
     BY <2>11, <2>5 DEF Deserialise
   <2>12. ASSUME NEW hsk, NEW hpk, Derive(hsk, hpk) PROVE InjInv'
@@ -176,7 +181,7 @@ THEOREM InjInductive == ASpec => []InjInv
   <2>14. ASSUME NEW h, Drop(h) PROVE InjInv'
     BY <2>14, <2>5 DEF Drop
   <2> QED
-    BY <2>1, <2>2, <2>3, <2>4, <2>6, <2>7, <2>8, <2>9, <2>10, <2>11, <2>12, <2>13, <2>14 DEF ANext
+    BY <2>1, <2>2, <2>3, <2>4, <2>6, <2>7, <2>8, <2>9, <2>10, <2>11, <2>12, <2>13, <2>14, <2>os DEF ANext
 <1> QED
   BY <1>1, <1>2, PTL DEF ASpec
 
@@ -219,6 +224,8 @@ THEOREM Monotone == ASpec => [][Stable]_avars
     BY <2>7, <2>u DEF VerifyInternal
   <2>8. ASSUME NEW fault, NEW at, Dudect(fault, at) PROVE Stable
     BY <2>8, <2>u DEF Dudect
+  <2>os. ASSUME NEW entry, NEW healthy, OsRng(entry, healthy) PROVE Stable
+    BY <2>os, <2>u DEF OsRng
   <2>9. ASSUME NEW h, NEW bytes, Serialise(h, bytes) PROVE Stable
     BY <2>9, <2>u DEF Serialise
   <2>10. ASSUME NEW kind, NEW set, NEW bytes, NEW accept, NEW h, Deserialise(kind, set, bytes, accept, h) PROVE Stable
@@ -230,7 +237,7 @@ THEOREM Monotone == ASpec => [][Stable]_avars
   <2>13. ASSUME NEW h, Drop(h) PROVE Stable
     BY <2>13, <2>u DEF Drop
   <2> QED
-    BY <1>1, <2>1, <2>2, <2>3, <2>4, <2>5, <2>6, <2>7, <2>8, <2>9, <2>10, <2>11, <2>12, <2>13 DEF ANext
+    BY <1>1, <2>1, <2>2, <2>3, <2>4, <2>5, <2>6, <2>7, <2>8, <2>9, <2>10, <2>11, <2>12, <2>13, <2>os DEF ANext
 <1> QED
   BY <1>1, PTL DEF ASpec
 
@@ -258,6 +265,8 @@ THEOREM ErrorCreatesNothingU == ASpec => [][ErrStep]_avars
     <3> QED BY <3>1, <3>2
   <2>3. ASSUME NEW fault, NEW at, Dudect(fault, at) PROVE ErrStep
     BY <2>3 DEF Dudect, ErrStep
+  <2>os. ASSUME NEW entry, NEW healthy, OsRng(entry, healthy) PROVE ErrStep
+    BY <2>os DEF OsRng, ErrStep
   <2>4. CASE UNCHANGED avars
     BY <2>4 DEF avars, ErrStep
   <2>5. ASSUME NEW set, NEW seed, NEW hpk, NEW hsk, KeyGenSeed(set, seed, hpk, hsk) PROVE ErrStep
@@ -279,7 +288,7 @@ THEOREM ErrorCreatesNothingU == ASpec => [][ErrStep]_avars
   <2>13. ASSUME NEW h, Drop(h) PROVE ErrStep
     BY <2>13 DEF Drop, ErrStep
   <2> QED
-    BY <1>1, <2>1, <2>2, <2>3, <2>4, <2>5, <2>6, <2>7, <2>8, <2>9, <2>10, <2>11, <2>12, <2>13 DEF ANext
+    BY <1>1, <2>1, <2>2, <2>3, <2>4, <2>5, <2>6, <2>7, <2>8, <2>9, <2>10, <2>11, <2>12, <2>13, <2>os DEF ANext
 <1> QED
   BY <1>1, PTL DEF ASpec
 
@@ -306,6 +315,8 @@ THEOREM RngDisciplineU == ASpec => []RngInv
     <3> QED BY <3>1, <3>2
   <2>3. ASSUME NEW fault, NEW at, Dudect(fault, at) PROVE RngInv'
     BY <2>3 DEF Dudect, RngInv
+  <2>os. ASSUME NEW entry, NEW healthy, OsRng(entry, healthy) PROVE RngInv'
+    BY <2>os DEF OsRng, RngInv
   <2>4. CASE UNCHANGED avars
     BY <2>4 DEF avars, RngInv
   <2>5. ASSUME NEW set, NEW seed, NEW hpk, NEW hsk, KeyGenSeed(set, seed, hpk, hsk) PROVE RngInv'
@@ -327,7 +338,7 @@ THEOREM RngDisciplineU == ASpec => []RngInv
   <2>13. ASSUME NEW h, Drop(h) PROVE RngInv'
     BY <2>13 DEF Drop, RngInv
   <2> QED
-    BY <2>1, <2>2, <2>3, <2>4, <2>5, <2>6, <2>7, <2>8, <2>9, <2>10, <2>11, <2>12, <2>13 DEF ANext
+    BY <2>1, <2>2, <2>3, <2>4, <2>5, <2>6, <2>7, <2>8, <2>9, <2>10, <2>11, <2>12, <2>13, <2>os DEF ANext
 <1> QED
   BY <1>1, <1>2, PTL DEF ASpec
 
